@@ -29,6 +29,7 @@ type result struct {
 	Fired    bool     `json:"fired"`
 	SemAcc   bool     `json:"sem_accepted"`
 	Kind     string   `json:"kind"`
+	RefAcc   bool     `json:"ref_accepted"` // the Go mirror of the parser model over the grammar tables (used by the failing-input search only)
 }
 
 // parseWithProbes parses text with a private BQL() whose every clause has a ProcessStart probe.
@@ -78,7 +79,14 @@ func run(g *gram.G, kind string, sym, alt int, toks []int) result {
 		}
 	}
 	r.SemAcc = parseSemantic(text)
+	r.RefAcc = refAccepts(g, r.Lexed)
 	return r
+}
+
+// refAccepts: whole-input acceptance by the table-driven mirror parser (START derives the tokens up to end of input).
+func refAccepts(g *gram.G, lexed []int) bool {
+	ok, _, consumed := g.Parse(lexed)
+	return ok && (consumed >= len(lexed) || lexed[consumed] == gram.EOF)
 }
 
 func main() {
